@@ -1,6 +1,7 @@
 package dns_naming
 
 import (
+	"encoding/binary"
 	"net"
 	"net/netip"
 	"strings"
@@ -155,6 +156,18 @@ func (h *DNSHandler) sendMDNS(buf []byte, srcAddr packet.Addr, dstAddr packet.Ad
 		return err
 	}
 	ip6 = ip6.SetPayload(udp, syscall.IPPROTO_UDP)
+	// the UDP checksum is mandatory over IPv6 (RFC 8200 8.1): pseudo header + UDP header + data
+	psh := make([]byte, 40+len(udp))
+	copy(psh[0:16], ip6.Src().AsSlice())
+	copy(psh[16:32], ip6.Dst().AsSlice())
+	binary.BigEndian.PutUint32(psh[32:36], uint32(len(udp)))
+	psh[39] = syscall.IPPROTO_UDP
+	copy(psh[40:], udp)
+	cs := packet.Checksum(psh)
+	if cs == 0 {
+		cs = 0xffff
+	}
+	udp[7], udp[6] = byte(cs>>8), byte(cs)
 	ether, _ = ether.SetPayload(ip6)
 	if _, err := h.session.Conn.WriteTo(ether, &dstAddr); err != nil {
 		LoggerMDNS.Msg("failed to write").Error(err).Write()
